@@ -4,7 +4,7 @@ every check must stay silent on each of them.
 
   import <worktree> <RID>     copy _refactor/{patchX.diff,meta.json} into refactored/<RID>-X/
   import-fixed <worktree> <PROP>   copy _seed/fixed{A,B}.diff (repaired twins of seeded/<PROP>-E/-F) into refactored/X<nn>-{E,F}/
-  check  <id>|all [--suite]   apply the patch to a scratch worktree of /repo HEAD, run every claimed check with
+  check  <id>|<prefix>*|all [--suite]   apply the patch to a scratch worktree of /repo HEAD, run every claimed check with
                               --repo <scratch>; print anything that is not exit 0; with --suite also run the
                               pinned test-suite on the refactored tree (to confirm that it IS behaviour-preserving
                               as far as the tests can tell)
@@ -145,7 +145,7 @@ def main():
     elif a[0] == 'import-fixed':
         cmd_import_fixed(a[1], a[2])
     elif a[0] == 'check':
-        todo = ids() if a[1] == 'all' else [a[1]]
+        todo = ids() if a[1] == 'all' else ([i for i in ids() if i.startswith(a[1][:-1])] if a[1].endswith('*') else [a[1]])
         if len(todo) > 1 and '--suite' not in a:
             import multiprocessing as mp
             jobs = int(a[a.index('--jobs') + 1]) if '--jobs' in a else 8
